@@ -650,9 +650,11 @@ fn render_heading<'a, T>(
                     id = context.anchorizer.anchorize(id);
                     write!(
                         context,
-                        "<a href=\"#{}\" aria-hidden=\"true\" class=\"anchor\" id=\"{}{}\"></a>",
-                        id, prefix, id
+                        "<a href=\"#{}\" aria-hidden=\"true\" class=\"anchor\" id=\"",
+                        id
                     )?;
+                    context.escape(prefix.as_bytes())?;
+                    write!(context, "{}\"></a>", id)?;
                 }
             } else {
                 writeln!(context, "</h{}>", nch.level)?;
